@@ -183,7 +183,7 @@ def write_afni(base, shape, facs, dtype='<i2', salt=0):
 
 
 # ------------------------------------------------------------------ PAR/REC
-def write_parrec(base, shape, order_kind, rng, scaling='dv'):
+def write_parrec(base, shape, order_kind, rng, scaling='dv', nondyadic=False):
     """PAR text from the repo fixture phantom_EPI_asc_CLEAR_2_1.PAR: general information kept,
     image lines regenerated for (slice, dynamic) with our recon size, per-slice rescale
     slope/intercept/scale slope and record order; REC = int16 records in line order."""
@@ -224,6 +224,10 @@ def write_parrec(base, shape, order_kind, rng, scaling='dv'):
         RS = slopes_dyadic[(3 * s + 5 * d + 1) % len(slopes_dyadic)]
         RI = inters_dyadic[(s + 2 * d) % len(inters_dyadic)]
         SS = [0.5, 2.0, 4.0][(s + d) % 3]
+        if nondyadic:       # decimal text round-trips exactly through repr()/float()
+            RS = round(rng.uniform(0.001, 9.0), 5)
+            RI = round(rng.uniform(-50.0, 50.0), 4)
+            SS = round(rng.uniform(0.01, 3.0), 6)
         t[11], t[12], t[13] = repr(RI), repr(RS), repr(SS)
         rs.append(RS)
         ri.append(RI)
@@ -248,14 +252,14 @@ def write_parrec(base, shape, order_kind, rng, scaling='dv'):
         slopes = [1.0 / v for v in ss]
         inters = [ri[k] / (rs[k] * ss[k]) for k in range(nrec)]
     spec = dict(kind='parrec', shape=tuple(shape), raw=raw, order='F', ind=ind, nrec=nrec, m=m,
-                slopes=slopes, inters=inters, w=2, off=0, dtype=np.dtype('<u2'), img_file=rec, hdr_file=par,
+                slopes=slopes, inters=inters, rs=rs, ri=ri, ss=ss, w=2, off=0, dtype=np.dtype('<u2'), img_file=rec, hdr_file=par,
                 one_file=False, exact=(scaling == 'dv'))
     # element e of the OUTPUT array (F order) is record ind[e // m], position e % m
     return par, rec, spec
 
 
 # ------------------------------------------------------------------ ECAT
-def write_ecat(path, frame_shape, nfr, rng):
+def write_ecat(path, frame_shape, nfr, rng, nondyadic=False):
     """multi-frame ECAT file assembled from the single-frame fixture's headers (same recipe as
     harness/defect_probes.make_multi_ecat) with our frame shape, per-frame scale factors and
     data; frames are stored at increasing block positions."""
@@ -269,6 +273,8 @@ def write_ecat(path, frame_shape, nfr, rng):
     h2 = EcatHeader(rawf[:512])
     h2['num_frames'] = nfr
     calib = 0.5
+    if nondyadic:
+        calib = float(np.float32(rng.uniform(0.01, 50.0)))
     h2['ecat_calibration_factor'] = calib
     main = h2.binaryblock
     dirblk = np.zeros((128,), dtype='>i4').reshape(32, 4)
@@ -286,6 +292,8 @@ def write_ecat(path, frame_shape, nfr, rng):
         sub = sub0.copy()
         sub['x_dimension'], sub['y_dimension'], sub['z_dimension'] = x, y, z
         sf = [1.0, 2.0, 0.25, 4.0, 0.5, 8.0][i % 6]
+        if nondyadic:
+            sf = float(np.float32(10 ** rng.uniform(-6, 3)))
         sub['scale_factor'] = sf
         facs.append(sf)
         d = raw_values(m, '>i2', salt=i + 1)
@@ -300,7 +308,7 @@ def write_ecat(path, frame_shape, nfr, rng):
         f.write(main + dirblk.tobytes() + frames)
     raw = np.concatenate(raws)
     spec = dict(kind='ecat', shape=tuple(frame_shape) + (nfr,), raw=raw, order='F',
-                fac_of_elem=np.arange(m * nfr) // m, slopes=[calib * s for s in facs], inters=[0.0] * nfr,
+                fac_of_elem=np.arange(m * nfr) // m, slopes=[calib * s for s in facs], inters=[0.0] * nfr, calib=calib, sfacs=facs,
                 w=2, off=offs, dtype=np.dtype('>i2'), img_file=path, hdr_file=path, one_file=True, gap=None)
     return path, path, spec
 
@@ -318,13 +326,14 @@ def _minc_factors(lead_shape, salt):
     return imin, imax
 
 
-def write_minc2(path, shape, nscales, salt=0, dtype='<i2'):
+def write_minc2(path, shape, nscales, salt=0, dtype='<i2', raw=None, factors=None, vr=MINC_VR):
     import h5py
     names = ['time', 'zspace', 'yspace', 'xspace'][-len(shape):]
     n = int(np.prod(shape))
-    raw = raw_values(n, dtype, salt) % 4096
-    raw = raw.astype(dtype)
-    imin, imax = _minc_factors(shape[:nscales], salt)
+    if raw is None:
+        raw = raw_values(n, dtype, salt) % 4096
+    raw = np.asarray(raw).astype(dtype)
+    imin, imax = factors if factors is not None else _minc_factors(shape[:nscales], salt)
     with h5py.File(path, 'w') as f:
         g = f.create_group('minc-2.0')
         dims = g.create_group('dimensions')
@@ -339,21 +348,24 @@ def write_minc2(path, shape, nscales, salt=0, dtype='<i2'):
         img = g.create_group('image').create_group('0')
         im = img.create_dataset('image', data=raw.reshape(shape))
         im.attrs['dimorder'] = np.bytes_(','.join(names).encode())
-        im.attrs['valid_range'] = np.array(MINC_VR, dtype=np.float64)
+        im.attrs['valid_range'] = np.array(vr, dtype=np.float64)
         lead = tuple(shape[:nscales])
         for nm, arr in (('image-min', imin), ('image-max', imax)):
             ds = img.create_dataset(nm, data=arr.reshape(lead) if lead else np.float64(arr[0]))
             if nscales:
                 ds.attrs['dimorder'] = np.bytes_(','.join(names[:nscales]).encode())
-    return path, path, _minc_spec(shape, nscales, raw, imin, imax, np.dtype(dtype), path)
+    return path, path, _minc_spec(shape, nscales, raw, imin, imax, np.dtype(dtype), path, vr)
 
 
-def write_minc1(path, shape, nscales, salt=0):
+def write_minc1(path, shape, nscales, salt=0, raw=None, factors=None, vr=MINC_VR, code='h'):
     from nibabel.externals.netcdf import netcdf_file
     names = ['time', 'zspace', 'yspace', 'xspace'][-len(shape):]
     n = int(np.prod(shape))
-    raw = (raw_values(n, '>i2', salt) % 4096).astype('>i2')
-    imin, imax = _minc_factors(shape[:nscales], salt)
+    fdt = {'h': '>i2', 'b': 'i1', 'i': '>i4'}[code]
+    if raw is None:
+        raw = raw_values(n, '>i2', salt) % 4096
+    raw = np.asarray(raw).astype(fdt)
+    imin, imax = factors if factors is not None else _minc_factors(shape[:nscales], salt)
     f = netcdf_file(path, 'w')
     for nm, ln in zip(names, shape):
         f.createDimension(nm, ln)
@@ -362,9 +374,9 @@ def write_minc1(path, shape, nscales, salt=0):
         v.spacing = b'regular__'
         v.step = 1.0
         v.start = 0.0
-    im = f.createVariable('image', 'h', tuple(names))
+    im = f.createVariable('image', code, tuple(names))
     im.signtype = b'signed__'
-    im.valid_range = np.array(MINC_VR, dtype=np.float64)
+    im.valid_range = np.array(vr, dtype=np.float64)
     im[:] = raw.reshape(shape)
     for nm, arr in (('image-min', imin), ('image-max', imax)):
         v = f.createVariable(nm, 'd', tuple(names[:nscales]))
@@ -373,17 +385,18 @@ def write_minc1(path, shape, nscales, salt=0):
         else:
             v[...] = arr[0]
     f.close()
-    return path, path, _minc_spec(shape, nscales, raw, imin, imax, np.dtype('>i2'), path)
+    return path, path, _minc_spec(shape, nscales, raw, imin, imax, np.dtype(fdt), path, vr)
 
 
-def _minc_spec(shape, nscales, raw, imin, imax, dtype, path):
+def _minc_spec(shape, nscales, raw, imin, imax, dtype, path, vr=MINC_VR):
     n = int(np.prod(shape))
     m = int(np.prod(shape[nscales:]))
-    slope = (imax - imin) / (MINC_VR[1] - MINC_VR[0])
-    inter = imin - MINC_VR[0] * slope
+    imin, imax = np.asarray(imin, dtype=np.float64), np.asarray(imax, dtype=np.float64)
+    slope = (imax - imin) / (vr[1] - vr[0])
+    inter = imin - vr[0] * slope
     return dict(kind='minc', shape=tuple(shape), raw=np.asarray(raw).ravel(), order='C', nscales=nscales,
                 fac_of_elem=np.arange(n) // m if nscales else np.zeros(n, int),
-                slopes=list(slope), inters=list(inter), w=dtype.itemsize, off=None, dtype=dtype,
+                slopes=list(slope), inters=list(inter), imin=imin, imax=imax, vr=vr, w=dtype.itemsize, off=None, dtype=dtype,
                 img_file=path, hdr_file=path, one_file=True)
 
 
@@ -401,3 +414,97 @@ def expected_flat(spec):
         return raw
     f = np.asarray(spec['fac_of_elem'])
     return raw.astype(np.float64) * np.asarray(spec['slopes'])[f] + np.asarray(spec['inters'])[f]
+
+
+# ------------------------------------------------------------------ bit-exact float plumbing (text forms of coq/C03/driver.ml)
+KINFO = {0: (11, 16, 'float16', 'uint16'), 1: (24, 128, 'float32', 'uint32'), 2: (53, 1024, 'float64', 'uint64')}
+
+
+def bits_to_sf(bits, k):
+    """IEEE bit pattern of format k -> the model's text form (canonical mantissa/exponent)"""
+    prec, emax = KINFO[k][:2]
+    w = {0: 16, 1: 32, 2: 64}[k]
+    ebits = w - prec
+    s = bits >> (w - 1)
+    E = (bits >> (prec - 1)) & ((1 << ebits) - 1)
+    F = bits & ((1 << (prec - 1)) - 1)
+    if E == (1 << ebits) - 1:
+        return 'n' if F else 'i%d' % s
+    if E == 0:
+        if F == 0:
+            return 'z%d' % s
+        return 'f%d:%d:%d' % (s, F, 3 - emax - prec)
+    return 'f%d:%d:%d' % (s, F + (1 << (prec - 1)), E - (emax - 1) - (prec - 1))
+
+
+def float_to_sf(x, k):
+    dt = np.dtype(KINFO[k][2])
+    return bits_to_sf(int(np.array(x, dtype=dt).view(KINFO[k][3])), k)
+
+
+def sf_to_float(tok, k):
+    """model text form -> NumPy scalar of format k (0..2) or np.longdouble (3); exact"""
+    ft = {0: np.float16, 1: np.float32, 2: np.float64, 3: np.longdouble}[k]
+    if tok == 'n':
+        return ft('nan')
+    if tok[0] == 'i':
+        return ft('-inf') if tok[1] == '1' else ft('inf')
+    if tok[0] == 'z':
+        return ft('-0.0') if tok[1] == '1' else ft('0.0')
+    s, m, e = tok[1:].split(':')
+    v = np.ldexp(ft(int(m)) if k != 3 else np.longdouble(int(m)), int(e))
+    return ft(-v if s == '1' else v)
+
+
+def dtype_tok(dt):
+    dt = np.dtype(dt)
+    if dt.kind in 'iu':
+        return 'I%d:%d' % (int(dt.kind == 'i'), dt.itemsize * 8)
+    return 'F%d' % {2: 0, 4: 1, 8: 2}.get(dt.itemsize, 3)
+
+
+def tok_dtype(tok):
+    if tok[0] == 'I':
+        sg, w = tok[1:].split(':')
+        return np.dtype(('i' if sg == '1' else 'u') + str(int(w) // 8))
+    return np.dtype({0: np.float16, 1: np.float32, 2: np.float64, 3: np.longdouble}[int(tok[1:])])
+
+
+def fid_of(x):
+    """model format index of a scale factor as NumPy sees it (np.asanyarray(x).dtype)"""
+    dt = np.asanyarray(x).dtype
+    if dt.kind != 'f':
+        dt = np.dtype(np.float64)
+    return {2: 0, 4: 1, 8: 2}.get(dt.itemsize, 3)
+
+
+def val_tok(v, dt):
+    dt = np.dtype(dt)
+    if dt.kind in 'iu':
+        return str(int(v))
+    return float_to_sf(v, {2: 0, 4: 1, 8: 2}[dt.itemsize])
+
+
+def parse_model_array(res):
+    """'ok <dtype> v...' -> NumPy array of that dtype (bit exact) | None for 'err ...'"""
+    if not res.startswith('ok '):
+        return None
+    toks = res.split(' ')
+    dt = tok_dtype(toks[1])
+    if dt.kind in 'iu':
+        return np.array([int(t) for t in toks[2:]], dtype=dt)
+    k = int(toks[1][1:])
+    return np.array([sf_to_float(t, k) for t in toks[2:]], dtype=dt)
+
+
+def same_bits(a, b):
+    a, b = np.asarray(a), np.asarray(b)
+    na, nb = a.astype(a.dtype.newbyteorder('='), copy=False), b.astype(b.dtype.newbyteorder('='), copy=False)
+    if na.dtype != nb.dtype or na.shape != nb.shape:
+        return False
+    ba, bb = np.ascontiguousarray(na).tobytes(), np.ascontiguousarray(nb).tobytes()
+    if na.dtype == np.dtype(np.longdouble) and na.dtype.itemsize == 16:      # x87: 10 significant bytes + 6 of padding
+        ua = np.frombuffer(ba, np.uint8).reshape(-1, 16)[:, :10]
+        ub = np.frombuffer(bb, np.uint8).reshape(-1, 16)[:, :10]
+        return bool(np.array_equal(ua, ub))
+    return ba == bb
